@@ -6,11 +6,14 @@ import coqlit as L
 
 ID = "C03"
 COQ_PROPERTY_FILE = "Properties/C03.v"
-COQ_DEPS = ["Common/ListX.v", "Common/ObsHash.v", "Generated/Tables.v", "Model/AgentSet.v", "Proofs/AgentSetProofs.v"]
+COQ_DEPS = ["Common/ListX.v", "Common/ObsHash.v", "Generated/Tables.v", "Model/AgentSet.v", "Proofs/AgentSetProofs.v",
+            "Proofs/AgentSetBridge.v"]
 COQ_IMPORTS = "From Mesa Require Import Model.AgentSet."
 COQ_CASE_TYPE = "case"
 COQ_RUN = "run_case"
-TABLE_CONSTRUCTS = []
+TABLE_CONSTRUCTS = ["agentset_select_fast", "agentset_select_limit", "agentset_select_keep", "agentset_select_loop",
+                    "agentset_select_inplace", "agentset_select_skeleton", "agentset_sort_reverse", "agentset_sort_inplace",
+                    "agentset_shuffle", "agentset_get", "agentset_defaults", "agentset_glue"]
 RULE = ("histories = up to 10 agents of classes A(mesa.Agent), B(A), C(B), D(A) with small int attributes a0..a2 (ties; "
         "a1/a2 missing on some agents), an initial AgentSet (all / subset / permuted / with duplicates / empty) in slot 0 of a "
         "pool of 6 slots, then <= 25 operations select/sort/shuffle (in-place or copying into another slot), groupby (+ count/agg/do), "
@@ -22,6 +25,8 @@ TRUSTED_BASE = [
     "Coq 8.16.1 kernel (coqc); vm_compute used for the non-vacuity examples and for evaluating the model in the correspondence",
     "no axioms: Print Assumptions reports 'Closed under the global context' for every C03 theorem",
     "harness/props/C03.py driver+observer and the Gallina literal printer (T2, differential testing, not a proof)",
+    "harness/pyexpr.py + harness/tables/agentset_code.py (T1, code level): select's tests/arithmetic/loop, sort's reverse=, "
+    "the in-place branches and get's branch structure are translated from the working tree; dict/weakref glue is compared verbatim",
     "Model/AgentSet.v is a hand transcription of mesa/agent.py AgentSet; WeakKeyDictionary = insertion-ordered key list "
     "(all agents stay referenced by the model registry), Python int = Z, sorted(reverse=) = stable insertion sort with >=",
     "user code (filters, keys, map functions) ranges over the small DSLs pred/keyf/mapf; the driver builds the same closures",
